@@ -15,7 +15,8 @@
                          (K35: the last 719468 values of time_point<days,int64>; days + 719468 overflows) *)
 From BS Require Import Base ChronoSpec ChronoModel ChronoArith ChronoDecimal ChronoSweep ChronoCalendar ChronoYear
   ChronoSafe ChronoSafeAdd ChronoText ChronoTp ChronoTpParse ChronoTpRt ChronoTs ChronoRefute
-  ChronoDur ChronoDurPrint ChronoDurParse ChronoDurRt ChronoDurDenote ChronoDurU64 ChronoWide ChronoProps.
+  ChronoDur ChronoDurPrint ChronoDurParse ChronoDurRt ChronoDurDenote ChronoDurU64 ChronoWide ChronoProps ChronoMp.
+From BS Require Import MpModel MpWriter.
 Local Open Scope Z_scope.
 
 (* ---- calendar: anchor + successor law over all of Z (Hinnant's civil_from_days, truncating division) ---- *)
@@ -124,6 +125,54 @@ Example T_C14_bin_ts_example :
 Proof. exact c14_bin_ts_example. Qed.
 Print Assumptions T_C14_bin_ts_example.
 
+(* ---- T_C14_bin_ts composed with the MsgPack binary timestamp form (writer C06, reader C07; ChronoMp.v).
+        mp_save_chrono = To(value, CBinTimestamp&) then WriteValue(const CBinTimestamp&);  mp_load_chrono = ReadValue(
+        CBinTimestamp&) then To(CBinTimestamp, value&) — what Serialize(archive, time_point / duration) of
+        types/std/chrono.h does on a MsgPack archive.  For every representable value of an int64 / int32 / uint64
+        representation of every precision whose seconds fit the timestamp: the bytes written, read back from those
+        bytes followed by ANYTHING under any policies, give the identical value, and exactly the written bytes are
+        consumed; the format is timestamp 32 (6 bytes: 0 <= seconds < 2^32 and no nanoseconds), timestamp 64 (10
+        bytes: 0 <= seconds < 2^34) or timestamp 96 (15 bytes: everything else, negative seconds included).
+        F08 (C06): the library writes timestamp 96 seconds-first where the specification says nanoseconds-first; its
+        reader mirrors its writer, so the library reads its own timestamp 96 back correctly, which is what is proved
+        here — F08 stays a finding of C06 (interoperability), it is not repaired or excused by this theorem. ---- *)
+Theorem T_C14_bin_ts_wire : forall P R t o rest, rep3 R -> fits R t = true ->
+  fits I64 (fst (ts_of_ns (t * tick_ns P))) = true ->
+  let secs := fst (ts_of_ns (t * tick_ns P)) in let nanos := snd (ts_of_ns (t * tick_ns P)) in
+  mp_save_chrono P R t = Ok (wr_ts secs nanos) /\
+  mp_load_chrono ts_from_tp o P R (wr_ts secs nanos ++ rest) = Loaded (Ok t) rest /\
+  mp_load_chrono ts_from_dur o P R (wr_ts secs nanos ++ rest) = Loaded (Ok t) rest /\
+  length (wr_ts secs nanos) = match ts_format secs nanos with 32%N => 6%nat | 64%N => 10%nat | _ => 15%nat end.
+Proof. exact chrono_mp_roundtrip. Qed.
+Print Assumptions T_C14_bin_ts_wire.
+
+(* the CBinTimestamp level: any seconds of int64 and nanoseconds 0..999999999 *)
+Theorem T_C14_ts_wire_roundtrip : forall o secs nanos rest, ts_in_range secs nanos ->
+  read_ts o (wr_ts secs nanos ++ rest) = ROk (secs, nanos) rest.
+Proof. exact ts_wire_roundtrip. Qed.
+Print Assumptions T_C14_ts_wire_roundtrip.
+
+(* the bytes of each format *)
+Theorem T_C14_ts_wire_format : forall secs nanos, ts_in_range secs nanos ->
+  wr_ts secs nanos =
+  match ts_format secs nanos with
+  | 32%N => 0xD6 :: 0xFF :: MpSpec.be_bytes 4 (Z.to_N secs)
+  | 64%N => 0xD7 :: 0xFF :: MpSpec.be_bytes 8 (Z.to_N nanos * 2 ^ 34 + Z.to_N secs)
+  | _ => 0xC7 :: 12 :: 0xFF :: MpSpec.be_bytes 8 (twos 64 secs) ++ MpSpec.be_bytes 4 (Z.to_N nanos)
+  end%N.
+Proof. exact wr_ts_shape. Qed.
+Print Assumptions T_C14_ts_wire_format.
+
+Example T_C14_bin_ts_wire_example :
+  mp_save_chrono Ps I64 1700000000 = Ok [214; 255; 101; 83; 241; 0]%N /\
+  mp_save_chrono Pms I64 1700000000123 = Ok [215; 255; 29; 83; 83; 0; 101; 83; 241; 0]%N /\
+  mp_save_chrono Pns I64 (-500000000) = Ok [199; 12; 255; 255; 255; 255; 255; 255; 255; 255; 255; 29; 205; 101; 0]%N /\
+  mp_save_chrono Ps I64 17179869184 = Ok [199; 12; 255; 0; 0; 0; 4; 0; 0; 0; 0; 0; 0; 0; 0]%N /\
+  mp_load_chrono ts_from_tp (mkOpts PThrow PThrow) Pns I64
+    [199; 12; 255; 255; 255; 255; 255; 255; 255; 255; 255; 29; 205; 101; 0; 7]%N = Loaded (Ok (-500000000)) [7%N].
+Proof. exact chrono_mp_examples. Qed.
+Print Assumptions T_C14_bin_ts_wire_example.
+
 (* ---- T_C14_duration: every duration of an int64 / int32 representation of every precision prints as an
         ISO-8601 duration that parses back to the identical count (incl. the minimum of the type, zero, and
         sub-second fractions) ---- *)
@@ -210,6 +259,7 @@ Print Assumptions T_C14_raw_time.
        points do not compile in the library.)
      - char16_t / char32_t OUTPUT strings (out.append(buf, pos) of the ASCII buffer) are not modelled; wide INPUT is
        Properties_C15 (T_C15_wide_exact and the three theorems after it).
-     - T_C14_bin_ts composes with the MsgPack wire form proved in the MsgPack family (C06/C07); the
-       composition itself is not stated here.
+     - the ISO-string path of Serialize(archive, time_point / duration) for archives without binary timestamps
+       (JSON, XML, CSV, YAML) is Convert::ToString / Convert::To of this family composed with those archives'
+       string values; the composition is not stated.
    ====================================================================================================== *)
